@@ -5,4 +5,4 @@ from harness.props.poolprops import PoolProp
 class P(PoolProp):
     id = "C04"
     focus = "C04"
-    rule = ('As C03 plus until_all_ready actions (also after workers have been replaced) and injected faults: begin() raising in a chosen worker, the functor raising on the n-th item of a chosen worker; also plain FunctorPools whose workers have a quota (nobody is replaced, the history offers at most workers x quota chunks).  Every worker (an instrumented subclass) logs begin / item / end.  VIOLATION when a log has begin not exactly once and first, end not exactly once and last (in finished workers), a worker took more chunks than its quota, until_all_ready returned while some current worker had not completed begin(), a worker is still running after the pool was left, or a fault-free run hangs.')
+    rule = ('As C03 plus until_all_ready actions (also after workers have been replaced) and injected faults: begin() raising in a chosen worker, the functor raising on the n-th item of a chosen worker; also plain FunctorPools whose workers have a quota (nobody is replaced, the history offers at most workers x quota chunks); in some cases the body of the with-statement raises after the history, and some pools are built with a (generous) join_timeout.  Every worker (an instrumented subclass) logs begin / item / end.  VIOLATION when a log has begin not exactly once and first, end not exactly once and last (in finished workers), a worker took more chunks than its quota, until_all_ready returned while some current worker had not completed begin(), a worker is still running after the pool was left, or a fault-free run hangs.')
